@@ -467,8 +467,15 @@ def r4_algebra(repo: Repo, rep):
     fi = S.methods.get("dim")
     if fi is not None:
         rep.saw(fi)
-        for p in _ret_paths(fi):
-            rep.check(R, dump(p.ret) == "sum(self.values())", fi.site(), fi.fq, "dim = sum(self.values())", dump(p.ret), dump(p.ret))
+        from collections import OrderedDict
+        from ..absdom.listeval import Evaluator
+        for dims in ((("x", 2), ("t", 1), ("u", 3)), (), (("a", 1),)):
+            fr = Evaluator().run(fi.node.body, {"self": OrderedDict(dims)})
+            want = sum(d for _, d in dims)
+            if not isinstance(fr.ret, int) or isinstance(fr.ret, bool):
+                rep.undecided(R, fi.site(), fi.fq, f"dim of {dict(dims)} evaluable", repr(fr.ret)[:60])
+                continue
+            rep.check(R, fr.ret == want, fi.site(), fi.fq, f"dim of {dict(dims)} == {want} (the sum of the variables' dimensions)", str(fr.ret), f"dim {dict(dims)} = {fr.ret}")
     # bases: Counter before OrderedDict is what makes `+` merge and keep order
     rep.check(R, [b.split(".")[-1] for b in S.ext_bases] == ["Counter", "OrderedDict"], S.module.relpath, S.fq, "Space(Counter, OrderedDict)", str(S.ext_bases), str(S.ext_bases))
     fi = S.methods.get("__contains__")
@@ -626,8 +633,39 @@ def r7_value_semantics(repo: Repo, rep):
         rep.check(R, not bad, ci.module.relpath, ci.fq, "no receiver-changing in-place operator", f"defines {bad}", f"{cname}: {bad}")
 
 
+def r8_no_derived_state(repo: Repo, rep):
+    R = rep.rule("R-C12-8", "a Points object stores its tensor and its space, nothing derived from them; Space keeps Counter's `&` (the sub-space test compares its plain-Counter result, "
+                 "order-insensitively); Points.joined refuses operands that share a variable", floor=5,
+                 why="a memoised `coordinates` dict survives .to() / __setitem__ and goes stale; a Space-typed `&` makes `y*x in x*y*t` False; joining Points that share a name labels the wrong columns")
+    P, S = repo.cls(PTS), repo.cls(SPC)
+    for name, fi in P.methods.items():
+        stores = sorted({dump(t) for a in ast.walk(fi.node) if isinstance(a, (ast.Assign, ast.AugAssign, ast.AnnAssign)) for t in (a.targets if isinstance(a, ast.Assign) else [a.target])
+                         if isinstance(t, ast.Attribute) and dump(t.value) == "self"})
+        if not stores:
+            continue
+        rep.saw(fi)
+        extra = [t for t in stores if t not in ("self._t", "self.space")]
+        rep.check(R, not extra, fi.site(), fi.fq, "only self._t / self.space are assigned", f"also {extra}", f"Points.{name} stores {extra}")
+    cont = S.methods.get("__contains__")
+    if cont is not None:
+        rep.saw(cont)
+        uses_and = any(isinstance(b, ast.BinOp) and isinstance(b.op, ast.BitAnd) for b in ast.walk(cont.node))
+        own_and = [m for m in ("__and__", "__rand__") if m in S.methods]
+        rep.check(R, not (uses_and and own_and), cont.site(), cont.fq, "`self & space` in the sub-space test is Counter's intersection (a plain Counter, compared order-insensitively)",
+                  f"Space defines {own_and}: the intersection is a Space and `==` becomes order-sensitive", f"Space defines {own_and}")
+    jo = P.methods.get("joined")
+    if jo is None:
+        raise AnalysisError("Points.joined vanished")
+    rep.saw(jo)
+    guards = [a for a in ast.walk(jo.node) if isinstance(a, ast.Assert) and any(isinstance(c, ast.Call) and isinstance(c.func, ast.Attribute) and c.func.attr == "isdisjoint" for c in ast.walk(a.test))]
+    raising = [i for i in ast.walk(jo.node) if isinstance(i, ast.If) and any(isinstance(c, ast.Call) and isinstance(c.func, ast.Attribute) and c.func.attr == "isdisjoint" for c in ast.walk(i.test))
+               and any(isinstance(x, ast.Raise) for x in ast.walk(i))]
+    rep.check(R, bool(guards or raising), jo.site(), jo.fq, "the accumulated space and the next operand's space are asserted disjoint", "no such test", "joined without disjointness test")
+
+
 def run(repo: Repo, rep):
     r7_value_semantics(repo, rep)
+    r8_no_derived_state(repo, rep)
     r6_empty_and_slices(repo, rep)
     r1_pairing(repo, rep)
     r2_slices(repo, rep)
